@@ -173,7 +173,7 @@ fn fragment() -> impl Strategy<Value = Vec<u8>> {
         4 => Just(b"\x1b[C".to_vec()),
         6 => Just(b"\x1b[A".to_vec()),
         3 => Just(b"\x1b[B".to_vec()),
-        2 => (proptest::collection::vec(0x20u8..=0x3F, 0..4), 0x40u8..=0x7E).prop_map(|(p, f)| { let mut v = vec![0x1B, b'[']; v.extend(p); v.push(f); v }),
+        2 => (prop_oneof![9 => proptest::collection::vec(0x20u8..=0x3F, 0..4), 1 => proptest::collection::vec(0x20u8..=0x3F, 4..70)], 0x40u8..=0x7E).prop_map(|(p, f)| { let mut v = vec![0x1B, b'[']; v.extend(p); v.push(f); v }),
         3 => proptest::collection::vec(any::<u8>(), 1..4),
         1 => Just(vec![0x1B]),
     ]
